@@ -6,12 +6,12 @@ HARNESS = "C07.cpp"
 SOURCES = ["src/regression/leastsquares/LeastSquares.cpp"]
 NOINLINE = True
 
-def cut_normal(eng, st, argv, name):
+def cut_normal(eng, st, argv, name, ty=ir.DOUBLE):
     """at the entry of the LDLT / JacobiSVD computation: make JtJ_ opaque (symmetric, well-conditioned
     positive definite by assumption) so that nlsat sees a 3..10-variable problem"""
     this = argv[0] if "LDLT" in name or "JacobiSVD" in name else None
     mat = argv[1]
-    vals, rows, cols = models.cut_dynamic_matrix(eng, st, mat, "N")
+    vals, rows, cols = models.cut_dynamic_matrix(eng, st, mat, "N", ty)
     # stated bound ("full rank, bounded condition number"): N symmetric, N - mu*I positive definite
     # (smallest eigenvalue >= mu = 1e-3) and trace(N) <= n * 1e3
     M = [[vals[c * rows + r] for c in range(cols)] for r in range(rows)]
@@ -46,6 +46,16 @@ def setup_contract(eng):
     contracts.jacobi_svd_contract(eng, pre=cut_normal, post=svd_post)
 
 
+def cut_normal_f(eng, st, argv, name):
+    return cut_normal(eng, st, argv, name, ty=ir.FLOAT)
+
+
+def setup_contract_f(eng):
+    from vf import contracts
+    contracts.ldlt_contract(eng, scalar="f", pre=cut_normal_f)
+    contracts.jacobi_svd_contract(eng, scalar="f", pre=cut_normal_f, post=svd_post)
+
+
 def entries(tier):
     es = []
     sizes = [(1, 1, 2), (1, 3, 4), (2, 2, 3), (2, 4, 6), (3, 3, 4)] if tier == "quick" else \
@@ -57,6 +67,12 @@ def entries(tier):
         es.append(Entry("c07_weighted", params=p, setup=(setup_real_ldlt if n <= 2 else setup_contract), budget=dict(paths=400)))
         if n <= 2:
             es.append(Entry("c07_svd", params=p, setup=setup_contract, budget=dict(paths=400), note="JacobiSVD by contract"))
+    # float instantiation (same formulae over the reals; separate template instantiation of the same source)
+    for n, m, cap in [(2, 2, 3), (2, 4, 6)]:
+        es.append(Entry("c07_cholesky_f", params=dict(n=n, m=m, cap=cap), setup=setup_contract_f, budget=dict(paths=400)))
+        es.append(Entry("c07_svd_f", params=dict(n=n, m=m, cap=cap), setup=setup_contract_f, budget=dict(paths=400)))
+    for n, m1, m2 in [(2, 4, 2), (1, 3, 2)]:
+        es.append(Entry("c07_history_f", params=dict(n=n, m1=m1, m2=m2), setup=setup_contract_f, budget=dict(paths=400)))
     hist = [(1, 3, 2), (2, 4, 2), (2, 2, 4)] if tier == "quick" else [(1, 3, 2), (2, 4, 2), (2, 2, 4), (3, 5, 3), (3, 3, 5)]
     for n, m1, m2 in hist:
         es.append(Entry("c07_history", params=dict(n=n, m1=m1, m2=m2), setup=(setup_real_ldlt if n <= 1 else setup_contract),
